@@ -361,6 +361,21 @@ def K2(F, rep, R, classes=None):
         rep.ob('K2', '%s|%s' % (short(fn['name']), w['cv']), ok, rep.fn_site(fn, w['line']),
                '%s waits on %s with predicate [%s]%s' % (short(fn['name']), w['cv'], ' || '.join(expr_str(d) for d in w['disjuncts']),
                                                          '' if ok else ' - ' + '; '.join(why)), nontrivial=True)
+        # K2a: every disjunct is a bare atom.  The release analysis (K3/K6: "setFileSize / abort / a read releases this waiter") reads the
+        # disjuncts as sufficient conditions; a conjunct inside one (`m_fileSize != 0 && m_tellg >= m_fileSize`) takes part of the value
+        # space out of the release - a declared size of 0, the empty stream, then never ends the wait
+        rep.count('K2a')
+        conj = []
+        for d in w['disjuncts']:
+            x = strip_all_casts(d)
+            while isinstance(x, dict) and x.get('k') == 'Paren':
+                x = strip_all_casts(x.get('sub'))
+            if isinstance(x, dict) and x.get('k') == 'Bin' and x.get('op') == '&&':
+                conj.append(expr_str(d))
+        rep.ob('K2a', '%s|%s' % (short(fn['name']), w['cv']), not conj, rep.fn_site(fn, w['line']),
+               '%s: the wait predicate on %s is a disjunction of bare conditions' % (short(fn['name']), w['cv']) if not conj else
+               '%s: the disjunct [%s] of the wait predicate on %s is a conjunction: the event that is meant to end the wait ends it only for part of the '
+               'values (for instance never for a declared size of 0)' % (short(fn['name']), conj[0], w['cv']), nontrivial=True)
     return ws
 
 
@@ -1454,3 +1469,16 @@ def P(F, rep, R, FL, ws):
             (member_path(n.get('obj')) or (None,))[-1] == 'm_data']
     rep.ob('P3', 'dropOldData|pops', bool(pops), rep.fn_site(d[0]) if d else None,
            'UncompressedFile::dropOldData removes the front container (m_data.pop_front)' if pops else 'dropOldData never removes anything', nontrivial=True)
+    # P7: ... and all of them.  One consumer step can pass several containers (an object larger than a container, a request larger than the
+    # containers in the list); the consumers call dropOldData() once per step, so a call that releases at most one container leaves the others
+    # behind for good whenever such steps follow each other
+    rep.count('P7')
+    looped = False
+    for f in d:
+        for lp in walk(f['body']):
+            if lp.get('k') in ('While', 'For', 'Do') and any(any(x is pp for x in walk(lp.get('body') or {})) for pp in pops):
+                looped = True
+    rep.ob('P7', 'dropOldData|all-consumed', looped, rep.fn_site(d[0]) if d else None,
+           'UncompressedFile::dropOldData releases every container behind the get position (the pop sits in a loop)' if looped else
+           'UncompressedFile::dropOldData releases at most one container per call while one consumer step (an object or request larger than a '
+           'container) passes several: the containers passed in excess stay in the list - buffered data grows with the number of such objects', nontrivial=True)
